@@ -51,6 +51,9 @@ def loess_cases(ctx, rng):
                             continue
                         opts = dict(symmetric_weights=bool(rng.integers(0, 2)), use_threshold=bool(rng.integers(0, 2)),
                                     max_iter=int(rng.choice([0, 1, 2, 4, 10])))
+                        if rng.random() < 0.35:
+                            # caller-supplied, non-uniform weights: both strategies must apply them in every pass
+                            opts['weights'] = (np.round(rng.uniform(0.2, 1.0, n) * 64) / 64).tolist()
                         out.append((n, kind, x, po, tp, float(delta), opts))
     return out
 
@@ -71,7 +74,7 @@ def correspond(ctx):
             dis.append(Disagreement('c19.corpus', d['signature'], f'corpus {os.path.basename(f)}: {r}', d['replay'], True))
     lines, exp, metas = [], [], []
     for n, kind, x, po, tp, delta, opts in loess_cases(ctx, rng):
-        canon = ('loess', n, kind, po, tp, delta, tuple(sorted(opts.items())), tuple(x.tolist()))
+        canon = ('loess', n, kind, po, tp, delta, tuple(sorted((k, (tuple(v) if isinstance(v, list) else v)) for k, v in opts.items())), tuple(x.tolist()))
         ctx.count('x:' + kind)
         ctx.count('poly_order:%d' % po)
         ctx.count('delta:' + ('0' if delta == 0 else '>0'))
@@ -100,7 +103,8 @@ def correspond(ctx):
             exp.append(b2)
             metas.append(('fill', meta))
         # (3) real loess: memory strategies, compiled vs python kernels, chords, delta=0
-        kw = dict(total_points=tp, poly_order=po, delta=delta, return_coef=True, tol=1e-3, **opts)
+        kw = dict(total_points=tp, poly_order=po, delta=delta, return_coef=True, tol=1e-3, **{k: (np.array(v) if k == 'weights' else v) for k, v in opts.items()})
+        ctx.count('weights:' + ('user' if 'weights' in opts else 'none'))
         try:
             with np.errstate(all='ignore'):
                 b1, p1 = Baseline(x).loess(y, conserve_memory=True, **kw)
